@@ -115,6 +115,8 @@ pub fn library() -> Vec<Decl> {
         Decl { name: "Fun2", params: 3, codata: true, xtors: vec![("apply2", vec![P(0), P(1)], Some(P(2)))] },
         Decl { name: "Stream", params: 1, codata: true, xtors: vec![("head", vec![], Some(P(0))), ("tail", vec![], Some(D("Stream", vec![P(0)])))] },
         Decl { name: "LPair", params: 2, codata: true, xtors: vec![("lfst", vec![], Some(P(0))), ("lsnd", vec![], Some(P(1)))] },
+        // a data type whose first constructor has arguments and whose second has none
+        Decl { name: "Res", params: 1, codata: false, xtors: vec![("Ok", vec![P(0)], None), ("Err", vec![], None), ("Warn", vec![P(0), I], None)] },
         // a codata type whose destructor takes a value of the type itself (`f.app(f, n)`)
         Decl { name: "Rec", params: 0, codata: true, xtors: vec![("app", vec![D("Rec", vec![]), I], Some(I))] },
         // destructors with covariable parameters (trailing and leading)
@@ -500,7 +502,46 @@ impl<'a> G<'a> {
         E::Ctor(x.0.to_string(), es, t.clone())
     }
 
+    /// `f(..).case { .. }`: the scrutinee is the data result of a call (possibly the first mention
+    /// of that instance of the type in the whole program)
+    fn case_on_call(&mut self, t: &T, sc: &Scope, depth: usize, eff: bool) -> Option<E> {
+        let mut rts: Vec<T> = Vec::new();
+        for (i, sg) in self.sigs.iter().enumerate() {
+            if i > self.cur_def && (eff || sg.pure) && matches!(&sg.ret, T::D(..)) && !self.is_codata(&sg.ret) && !rts.contains(&sg.ret) {
+                rts.push(sg.ret.clone());
+            }
+        }
+        if rts.is_empty() {
+            return None;
+        }
+        let vt = rts[self.rng.below(rts.len())].clone();
+        let callee = self.call(&vt, sc, depth + 1, !eff)?;
+        let T::D(n, args) = &vt else { return None };
+        let d = self.decl(n);
+        let mut clauses = Vec::new();
+        for (xn, xargs, _) in &d.xtors {
+            let mut sc2 = Scope { vars: sc.vars.clone() };
+            let mut ids = Vec::new();
+            for a in xargs {
+                let id = self.fresh();
+                sc2.vars.push((id, inst(a, args), false));
+                ids.push(id);
+            }
+            let body = if eff { self.eff(t, &sc2, depth + 1) } else { self.pure(t, &sc2, depth + 1) };
+            clauses.push((xn.to_string(), ids, body));
+        }
+        if self.rng.pct(30) {
+            self.rng.shuffle(&mut clauses);
+        }
+        Some(E::Case(Box::new(callee), vt, clauses))
+    }
+
     fn case_on_var(&mut self, t: &T, sc: &Scope, depth: usize, eff: bool) -> Option<E> {
+        if self.rng.pct(20) {
+            if let Some(e) = self.case_on_call(t, sc, depth, eff) {
+                return Some(e);
+            }
+        }
         let cands: Vec<(usize, T)> = sc.vars.iter().filter(|(_, vt, cv)| !*cv && matches!(vt, T::D(..)) && !self.is_codata(vt)).map(|(i, vt, _)| (*i, vt.clone())).collect();
         if cands.is_empty() {
             return None;
@@ -600,7 +641,7 @@ impl<'a> G<'a> {
             .enumerate()
             .filter(|(i, s)| *i > self.cur_def && s.ret == *t && (!pure_only || s.pure))
             .filter(|(_, s)| self.in_rec == 0 || s.params.iter().all(|(_, pt, _)| !matches!(pt, T::D(n, _) if n == "Rec")))
-            .filter(|(_, s)| s.params.iter().all(|(_, _, cv)| !*cv || sc.vars.iter().any(|(_, vt, c)| *c && *vt == T::I)))
+            .filter(|(_, s)| s.params.iter().all(|(_, _, cv)| !*cv || *t == T::I && !pure_only || sc.vars.iter().any(|(_, vt, c)| *c && *vt == T::I)))
             .map(|(i, _)| i)
             .collect();
         if cands.is_empty() {
@@ -608,9 +649,22 @@ impl<'a> G<'a> {
         }
         let di = *self.rng.pick(&cands);
         let sig = self.sigs[di].clone();
+        // covariable parameters: labels in scope, or (for integer results) fresh labels wrapped
+        // around the call, each adding its own offset, so that returning normally and leaving
+        // through any one of the labels give different results
+        let n_cv = sig.params.iter().filter(|(_, _, cv)| *cv).count();
+        let have = sc.vars.iter().any(|(_, vt, c)| *c && *vt == T::I);
+        let wrap = n_cv > 0 && *t == T::I && !pure_only && (!have || self.rng.pct(40));
+        let fresh_labels: Vec<usize> = if wrap { (0..n_cv).map(|_| self.fresh()).collect() } else { Vec::new() };
+        let mut next_label = 0;
         let mut es = Vec::new();
         for (k, (_, pt, cv)) in sig.params.iter().enumerate() {
             if *cv {
+                if wrap {
+                    es.push(E::Var(fresh_labels[next_label]));
+                    next_label += 1;
+                    continue;
+                }
                 let ks: Vec<usize> = sc.vars.iter().filter(|(_, vt, c)| *c && *vt == *pt).map(|(i, _, _)| *i).collect();
                 es.push(E::Var(*self.rng.pick(&ks)));
             } else if k == 0 {
@@ -629,7 +683,12 @@ impl<'a> G<'a> {
                 es.push(self.pure(pt, sc, depth + 1));
             }
         }
-        Some(E::Call(di, es))
+        let mut e = E::Call(di, es);
+        for (j, l) in fresh_labels.iter().enumerate().rev() {
+            let offset = [1000, 100, 10, 7][j % 4] * (1 + self.rng.below(9) as i64);
+            e = E::Label(*l, Box::new(E::Op(Box::new(E::Lit(offset)), Op::Add, Box::new(e))));
+        }
+        Some(e)
     }
 
     /// expression in a sequenced position: effects allowed
@@ -641,7 +700,14 @@ impl<'a> G<'a> {
         let k = self.rng.below(100);
         let ints: Vec<usize> = sc.vars.iter().filter(|(_, vt, cv)| !*cv && *vt == T::I).map(|(i, _, _)| *i).collect();
         if k < self.cfg.print_pct as usize {
-            let a = if !ints.is_empty() && self.rng.pct(60) { E::Var(*self.rng.pick(&ints)) } else { self.pure(&T::I, sc, depth + 2) };
+            let a = if self.rng.pct(self.cfg.eff_args_pct / 2) {
+                // the printed value is computed with effects of its own (another print, a jump)
+                self.eff(&T::I, sc, depth + 3)
+            } else if !ints.is_empty() && self.rng.pct(60) {
+                E::Var(*self.rng.pick(&ints))
+            } else {
+                self.pure(&T::I, sc, depth + 2)
+            };
             let next = self.eff(t, sc, depth + 1);
             return E::Print(self.rng.pct(50), Box::new(a), Box::new(next));
         }
@@ -867,6 +933,8 @@ const POOL: [&str; 14] = ["x", "y", "z", "x0", "a0", "n", "l", "xs", "k", "share
 
 struct Namer {
     names: BTreeMap<usize, String>,
+    /// names handed out so far (reused for binders in sibling scopes)
+    recent: Vec<String>,
 }
 
 fn free_vars(e: &E, out: &mut Vec<usize>) {
@@ -952,12 +1020,21 @@ impl Namer {
         }
         // prefer a name that is visible (bound outside) but not referenced inside: real shadowing
         let vis: Vec<&str> = allowed.iter().copied().filter(|n| visible.iter().any(|v| self.names.get(v).map(|s| s == n).unwrap_or(false))).collect();
-        let n = if !vis.is_empty() && rng.pct(70) { vis[rng.below(vis.len())] } else { allowed[rng.below(allowed.len())] };
+        // otherwise often a name that a binder in a sibling scope already carries
+        let sib: Vec<&str> = allowed.iter().copied().filter(|n| self.recent.iter().any(|r| r == n)).collect();
+        let n = if !vis.is_empty() && rng.pct(60) {
+            vis[rng.below(vis.len())]
+        } else if !sib.is_empty() && rng.pct(50) {
+            sib[rng.below(sib.len())]
+        } else {
+            allowed[rng.below(allowed.len())]
+        };
         // the name of any visible binder (variable or covariable) is reused: shadowing
         if visible.iter().any(|v| self.names.get(v).map(|s| s == n).unwrap_or(false)) {
             *shadowed = true;
         }
         self.names.insert(id, n.to_string());
+        self.recent.push(n.to_string());
     }
 }
 
@@ -1214,6 +1291,9 @@ pub fn generate(rng: &mut Rng, cfg: &FunCfg) -> FunProg {
         }
         if !pure && g.rng.pct(cfg.label_pct) {
             params.push((g.fresh(), T::I, true));
+            if g.rng.pct(35) {
+                params.push((g.fresh(), T::I, true));
+            }
         }
         // (a fifth of the non-integer results are codata: `def idf(g: Fun[..]): Fun[..] { g }`)
         let mut ret = if g.rng.pct(65) { T::I } else { let cd = g.rng.pct(50); g.random_type(cd, 0) };
@@ -1240,9 +1320,9 @@ pub fn generate(rng: &mut Rng, cfg: &FunCfg) -> FunProg {
     }
     bodies.sort_by_key(|(i, _)| *i);
     // naming
-    let mut unique = Namer { names: BTreeMap::new() };
-    let mut shad = Namer { names: BTreeMap::new() };
-    let mut desh = Namer { names: BTreeMap::new() };
+    let mut unique = Namer { names: BTreeMap::new(), recent: Vec::new() };
+    let mut shad = Namer { names: BTreeMap::new(), recent: Vec::new() };
+    let mut desh = Namer { names: BTreeMap::new(), recent: Vec::new() };
     let mut has_shadowing = false;
     let mut text_u = String::new();
     let mut text_s = String::new();
@@ -1266,6 +1346,10 @@ pub fn generate(rng: &mut Rng, cfg: &FunCfg) -> FunProg {
             unique.names.insert(*id, format!("v{id}"));
             let pn = ["n", "x", "y", "l", "a", "b", "z", "xs", "k"];
             let pname = if k < pn.len() { pn[k].to_string() } else { format!("{}{}", pn[k % pn.len()], k / pn.len()) };
+            // covariable parameters are sometimes spelled like the covariables the compiler invents
+            let cv = sig.params[k].2;
+            let pname = if cv && g.rng.pct(50) { ["a0", "a1", "a2"][g.rng.below(3)].to_string() } else { pname };
+            let pname = if sig.params[..k].iter().any(|(o, _, _)| shad.names.get(o) == Some(&pname)) { format!("{pname}q{k}") } else { pname };
             shad.names.insert(*id, if g.cfg.shadow_pct > 0 { pname } else { format!("v{id}") });
             visible.push(*id);
         }
